@@ -13,6 +13,7 @@ import (
 	"io/fs"
 	"reflect"
 	"runtime"
+	"strings"
 	"sync"
 	"time"
 
@@ -47,7 +48,7 @@ type Reg struct {
 	Seq       bool     `json:"seq,omitempty"`
 	Filter    int      `json:"filter,omitempty"`    // 0 none, 1 accept-all, 2 reject-all, 3 even ids, 4 odd ids
 	Script    [][]Op   `json:"script,omitempty"`    // ops run re-entrantly on the k-th synchronous invocation
-	PanicKind int      `json:"panic,omitempty"`     // 0 none, 1 string, 2 error, 3 struct, 4 nil-deref, 5 panic(nil)
+	PanicKind int      `json:"panic,omitempty"`     // 0 none, 1 string, 2 error, 3 struct, 4 nil-deref, 5 panic(nil), 6 typed nil error, 7 long multi-byte message
 	PanicMod  uint64   `json:"panic_mod,omitempty"` // panics when id%PanicMod==PanicRem (Mod<=1: always)
 	PanicRem  uint64   `json:"panic_rem,omitempty"`
 	CancelAt  int      `json:"cancel_at,omitempty"`  // cancels the publish context on its k-th invocation (1-based), 0 never
@@ -530,6 +531,8 @@ func expectPanicDesc(kind, reg int, eid uint64) string {
 		return "runtime"
 	case 6:
 		return "nilptr:*fs.PathError"
+	case 7:
+		return "string:" + longPanicText(reg, eid)
 	}
 	return ""
 }
@@ -550,7 +553,15 @@ func doPanic(kind, reg int, eid uint64) {
 	case 6:
 		var e *fs.PathError // a typed nil error: calling its Error method panics
 		panic(e)
+	case 7:
+		panic(longPanicText(reg, eid))
 	}
+}
+
+// longPanicText: a long message in a multi-byte script (well over 256 bytes, well under 256
+// characters), as a validation error in another language would be.
+func longPanicText(reg int, eid uint64) string {
+	return fmt.Sprintf("обработчик %d не смог обработать событие %d: ", reg, eid) + strings.Repeat("ошибка проверки данных; ", 6)
 }
 
 // ---------------------------------------------------------------------------------------------
@@ -662,7 +673,11 @@ func (e *Engine) doSub(op *Op) {
 		e.Stats.ReplaySubs++
 		sctx, scancel := context.WithCancel(context.Background())
 		e.subCancels = append(e.subCancels, scancel)
-		err = d.SubscribeReplay(e.Bus, sctx, fmt.Sprintf("sub-%d", r.id), o, cb)
+		subID := fmt.Sprintf("sub-%d", r.id)
+		if len(e.subCancels) == 1 && len(e.P.Ops)%2 == 0 {
+			subID = "" // the empty string is a subscription id like any other
+		}
+		err = d.SubscribeReplay(e.Bus, sctx, subID, o, cb)
 		e.replay = nil
 		if err == nil && rf.pos != len(rf.want) {
 			e.fail("registry:replay-missing", "SubscribeWithReplay delivered %d of the %d persisted events of its type", rf.pos, len(rf.want))
